@@ -514,11 +514,28 @@ func c14Run(d c14Cert) (accepted bool, detail string, err error) {
 			return false, e.Error(), nil
 		}
 		return true, "CheckProposal = nil", nil
-	case "smr":
+	case "smr", "smr-pruned":
 		if d.Collector < 0 {
 			return false, "", fmt.Errorf("descriptor: path smr needs a collector")
 		}
 		tree := c14Tree()
+		if d.Path == "smr-pruned" {
+			// the instance has run for a while: three more proposals hang below the certified one and the commit rule
+			// has moved the root of the pending tree onto the certified proposal (the proposal under check forks there)
+			prev, ids := tree.Root.Sons[0], [][]byte{[]byte("c14-later-proposal-0000000000001"), []byte("c14-later-proposal-0000000000002"), []byte("c14-later-proposal-0000000000003")}
+			for i, id := range ids {
+				nd := &cbft.ProposalNode{In: &cbft.QuorumCert{
+					VoteInfo:         &cbft.VoteInfo{ProposalId: id, ProposalView: int64(2 + i), ParentId: prev.In.GetProposalId(), ParentView: int64(1 + i)},
+					LedgerCommitInfo: &cbft.LedgerCommitInfo{VoteInfoHash: id},
+				}}
+				prev.Sons = append(prev.Sons, nd)
+				prev = nd
+			}
+			tree.VerifUpdateCommit(ids[2])
+			if string(tree.Root.In.GetProposalId()) != string(c14CertifiedID) {
+				return false, "", fmt.Errorf("harness: the commit did not move the root onto the certified proposal")
+			}
+		}
 		pm := &c14Pacemaker{view: 1}
 		local := c14CryptoOf(c14OutsiderB)
 		smr := cbft.NewSmr(hx.BCName, local.Address.Address, c14NopLog{}, nil, local, pm, c14Rules(tree), &c14Election{n: d.N}, tree)
@@ -1153,7 +1170,7 @@ func TestC14(t *testing.T) {
 		c.Check(t, "qc-random", hx.N(1500, 12000), func(cs *hx.Case) {
 			rt := cs.RT()
 			n := rapid.IntRange(lo, hi).Draw(rt, "n")
-			paths := []string{"proposal", "block", "smr", "collect", "tdpos", "xpoa", "tdpos-term", "xpoa-change", "xpoa-reorg"}
+			paths := []string{"proposal", "block", "smr", "smr-pruned", "collect", "tdpos", "xpoa", "tdpos-term", "xpoa-change", "xpoa-reorg"}
 			path := rapid.SampledFrom(paths).Draw(rt, "path")
 			if (path == "tdpos-term" || path == "xpoa-change" || path == "xpoa-reorg") && n < 2 {
 				n = 2 // a one-member set cannot be changed into a different one of the same size
@@ -1248,18 +1265,18 @@ func TestC14(t *testing.T) {
 func c14EnumPaths(n int, thorough bool) []string {
 	switch {
 	case thorough && n >= 2:
-		return []string{"proposal", "block", "smr", "collect", "tdpos", "xpoa", "tdpos-term", "xpoa-change", "xpoa-reorg"}
+		return []string{"proposal", "block", "smr", "smr-pruned", "collect", "tdpos", "xpoa", "tdpos-term", "xpoa-change", "xpoa-reorg"}
 	case thorough:
-		return []string{"proposal", "block", "smr", "collect", "tdpos", "xpoa"}
+		return []string{"proposal", "block", "smr", "smr-pruned", "collect", "tdpos", "xpoa"}
 	case n >= 7:
 		return []string{"proposal", "block"}
 	case n >= 5:
-		return []string{"proposal", "block", "smr", "collect"}
+		return []string{"proposal", "block", "smr", "smr-pruned", "collect"}
 	}
 	if n >= 2 {
-		return []string{"proposal", "block", "smr", "collect", "tdpos", "xpoa", "tdpos-term", "xpoa-change", "xpoa-reorg"}
+		return []string{"proposal", "block", "smr", "smr-pruned", "collect", "tdpos", "xpoa", "tdpos-term", "xpoa-change", "xpoa-reorg"}
 	}
-	return []string{"proposal", "block", "smr", "collect", "tdpos", "xpoa"}
+	return []string{"proposal", "block", "smr", "smr-pruned", "collect", "tdpos", "xpoa"}
 }
 
 // c14EnumVariants: the placement / order / delivery variants enumerated for (n, path).
